@@ -1,5 +1,5 @@
 (* C13 — Locale is a drop-in superset of LanguageIdentifier. *)
-From UL Require Import Bytes Subtags LangId Ext Grammar LangIdSpec LangIdProofs ExtProofs.
+From UL Require Import Bytes Subtags LangId Ext Grammar LangIdSpec LangIdProofs ExtProofs LocaleSpec LocaleSpecProofs RoundTrip PrefixProofs.
 From Coq Require Import String.
 
 (* every input LanguageIdentifier accepts: same id, no extensions *)
@@ -27,6 +27,27 @@ Proof. intros l. split; reflexivity. Qed.
 Example C13_ex : locale_from_bytes (bs "sr_cyrl-RS"%string)
   = Ok (mkLoc (mkLangId (Some (bs "sr"%string)) (Some (bs "Cyrl"%string)) (Some (bs "RS"%string)) None) extmap_default).
 Proof. vm_compute. reflexivity. Qed.
+
+(* the second sentence in the words of the statement: for every well-formed locale string (the MustAccept
+   zone of C03: strictly well-formed, no duplicate key) the locale is accepted and its id is what
+   LanguageIdentifier parses from the part BEFORE THE FIRST SINGLETON subtag (`split_single` cuts the token
+   list at its first one-character token) *)
+Theorem C13_before_first_singleton : forall s v,
+  spec_locale_zone (split s) = MustAccept v ->
+  locale_from_bytes s = Ok v /\ langid_from_bytes (join (fst (split_single (split s)))) = Ok (loc_id v).
+Proof. exact locale_id_before_singleton. Qed.
+(* and whenever the longest language-identifier prefix is followed by nothing or by a one-character subtag,
+   that prefix IS the part before the first singleton and reads as the same id *)
+Theorem C13_prefix_is_before_singleton : forall toks id rem,
+  toks <> [] -> spec_langid_prefix toks = Some (id, rem) -> ext_stop rem ->
+  toks = fst (split_single toks) ++ rem /\ langid_from_bytes (join (fst (split_single toks))) = Ok id.
+Proof. exact prefix_before_singleton. Qed.
+Example C13_before_ex :
+  fst (split_single (split (bs "sr_Cyrl-RS-u-ca-buddhist-x-a"%string))) = [bs "sr"; bs "Cyrl"; bs "RS"]%string
+  /\ exists v, spec_locale_zone (split (bs "sr_Cyrl-RS-u-ca-buddhist-x-a"%string)) = MustAccept v.
+Proof. split; [vm_compute; reflexivity|eexists; vm_compute; reflexivity]. Qed.
+Print Assumptions C13_before_first_singleton.
+Print Assumptions C13_prefix_is_before_singleton.
 
 Print Assumptions C13_embed.
 Print Assumptions C13_same_string.
